@@ -298,7 +298,8 @@ def rand_inputs(iid, rng, n_types, n_ns):
             return "@sealed" if rng.random() < 0.5 else "@extent %d * 8" % rng.choice([256, 300, 512])
 
         lines = list(doc)
-        if rng.random() < 0.15:
+        deprecated = rng.random() < 0.12
+        if deprecated:
             lines.append("@deprecated")
         if kind < 0.2:  # service
             lines += consts() + fields("q") + [ending(), "---"] + (["@union"] if rng.random() < 0.3 else [])
@@ -310,14 +311,29 @@ def rand_inputs(iid, rng, n_types, n_ns):
         rel = "in/%s/%s.1.0.dsdl" % ("/".join((ROOT,) + ns), name)
         files[rel] = "\n".join(lines) + "\n"
         full = ".".join((ROOT,) + ns + (name,))
-        if kind >= 0.2:
+        if kind >= 0.2 and not deprecated:
             known.append(full + ".1.0")
             if kind >= 0.45 and rng.random() < 0.25 and lines[-1].startswith("@extent"):
                 # a second minor version: same extent, one more field
                 files["in/%s/%s.1.1.dsdl" % ("/".join((ROOT,) + ns), name)] = "\n".join(lines[:-1] + ["uint8 added_in_1_1", lines[-1]]) + "\n"
                 known.append(full + ".1.1")
     files["tpl/Any.j2"] = USER_TEMPLATE
-    return Inputs(iid, "rand:%d types/%d namespaces" % (n_types, n_ns), files, lookups=["extlib"])
+    return Inputs(iid, "rand:%d types/%d namespaces/%s" % (n_types, n_ns, sha(json.dumps(files, sort_keys=True))[:8]), files, lookups=["extlib"])
+
+
+def valid_inputs(ctx, inputs):
+    """front-end acceptance of a generated set (machinery: an invalid set is re-drawn, it is not an observation)"""
+    import pydsdl
+
+    base = ctx.scratch / ("probe-" + uuid.uuid4().hex[:8])
+    try:
+        inputs.materialize(base)
+        pydsdl.read_namespace(str(base / "in" / inputs.root), [str(base / "lk" / l) for l in inputs.lookups])
+        return True
+    except pydsdl.FrontendError:
+        return False
+    finally:
+        shutil.rmtree(base, ignore_errors=True)
 
 
 def fixed_inputs(iid):
@@ -475,7 +491,7 @@ def make_record(rid, inputs, opts, amb, res):
 class Lab:
     """Owns the scratch layout, the copies of every input set at the absolute locations A / B / C, and executes runs."""
 
-    LOCS = {"A": "a", "B": "b_" + "x" * 61 + "/deeper/still", "C": "c"}
+    LOCS = {"A": "locA9f3", "B": "locB" + "x" * 57 + "/deeperB/stillB", "C": "locC7c1e"}
 
     def __init__(self, ctx):
         self.ctx = ctx
@@ -652,8 +668,10 @@ def where_differs(a, b, loc_a, loc_b):
                 return "pickled-model-undecodable", ""
             if px == py:
                 return "gzip-header-mtime", "gzip header %s vs %s, payload identical" % (x[:10].hex(), y[:10].hex())
-            if loc_a != loc_b and loc_a.encode() in px and loc_b.encode() in py:
-                return "pickled-model-abspath", "pickled model contains %s resp. %s" % (loc_a, loc_b)
+            ua = [c for c in loc_a.split("/") if c and c not in loc_b.split("/")]
+            ub = [c for c in loc_b.split("/") if c and c not in loc_a.split("/")]
+            if ua and ub and all(c.encode() in px for c in ua) and all(c.encode() in py for c in ub):
+                return "pickled-model-abspath", "pickled model contains the path components %r resp. %r of the input location" % (ua, ub)
             return "pickled-model-state", "pickled model payload differs (%d vs %d bytes) without an absolute path being involved" % (len(px), len(py))
     la, lb = ta.split("\n"), tb.split("\n")
     for i in range(max(len(la), len(lb))):
@@ -801,6 +819,9 @@ class Campaign:
                     cands = sorted(named.get(key, set()) & set(dims))
                     dim = cands[0] if cands else "multi:" + "+".join(dims)
                 sig = "C07|%s|%s|%s|%s|%s" % (clause, opts.lang, dim, fc, where)
+                ex = ctx.cov.setdefault("violation_examples", {}).setdefault(sig, [])
+                if len(ex) < 6 and [inputs.name, opts.label] not in ex:
+                    ex.append([inputs.name, opts.label])
                 what = ("two runs of the same (inputs, options) differ [%s]: target %s, options %s, ambient difference %s, file %s: %s"
                         % (clause, opts.lang, opts.label, "+".join(dims), rel, detail))
                 ctx.violation(sig, what, self.case(rid))
@@ -864,26 +885,36 @@ def validate(ctx, records, bin_size=120):
 GATES = ["gzip_mtime", "ns_time", "model_abspath", "assert_abspath", "model_cache", "pp_carry", "include_order", "html_order", "filter_owner"]
 
 
+def _retry(f, *a, **kw):
+    """TLC killed from outside (no verdict, no error text: e.g. the OOM killer of a shared machine) is retried; a verdict never is."""
+    for attempt in range(3):
+        try:
+            return f(*a, **kw)
+        except MachineryFailure as e:
+            if attempt == 2 or ": None None" not in str(e).split("\n")[0]:
+                raise
+
+
 def run_models(ctx):
     q = ctx.quick
     mt = 3 if q else 4
     base = "MaxTypes=%d MaxNested=3 Langs={c,cpp,py,html}" % mt
-    tlc.check_model(ctx, "GenRepro", "GenRepro" if q else "GenRepro_4", timeout=5400,
+    _retry(tlc.check_model, ctx, "GenRepro", "GenRepro" if q else "GenRepro_4", timeout=5400, xmx="4g",
                     constants=base + " Audits=%s all gates closed, unsorted walk, run 2 varies clock x loc x cwd" % ("{F}" if q else "{F,T}"))
-    tlc.check_model(ctx, "GenRepro", "GenRepro_sorted" if q else "GenRepro_sorted4", timeout=3000,
+    _retry(tlc.check_model, ctx, "GenRepro", "GenRepro_sorted" if q else "GenRepro_sorted4", timeout=3000, xmx="4g",
                     constants=base + " gates model_cache+pp_carry OPEN but SortedWalk=TRUE (the alternative repair)")
-    neg = tlc.run_tlc(SPECS / "GenRepro.tla", SPECS / "GenRepro_neg.cfg", ctx.scratch)
+    neg = tlc.run_tlc(SPECS / "GenRepro.tla", SPECS / "GenRepro_neg.cfg", ctx.scratch, xmx="4g")
     if neg.violated != "Refines":
         raise MachineryFailure("negative control: the design with an open gate was not refuted (%s / %s)" % (neg.error, neg.violated))
-    neg2 = tlc.run_tlc(SPECS / "GenRepro.tla", SPECS / "GenRepro_audit.cfg", ctx.scratch)
+    neg2 = tlc.run_tlc(SPECS / "GenRepro.tla", SPECS / "GenRepro_audit.cfg", ctx.scratch, xmx="4g")
     if neg2.violated != "SameEvenWithAudit":
         raise MachineryFailure("negative control: auditing information did not make the two results differ in the model (%s / %s)" % (neg2.error, neg2.violated))
     ctx.cov["model_negative_control"] = ["gate model_cache open, unsorted walk: invariant Refines refuted after %d states" % neg.distinct,
                                          "embed_auditing_info: results differ (SameEvenWithAudit refuted after %d states) while Refines holds" % neg2.distinct]
-    wit = tlc.emit_cases(ctx, "GenRepro", "GenRepro_wit_amb", constants="one ambient gate open at a time, MaxTypes=2 MaxNested=1", timeout=3000)
-    wit += tlc.emit_cases(ctx, "GenRepro", "GenRepro_wit_order" if q else "GenRepro_wit_order4", timeout=5400,
+    wit = _retry(tlc.emit_cases, ctx, "GenRepro", "GenRepro_wit_amb", xmx="4g", constants="one ambient gate open at a time, MaxTypes=2 MaxNested=1", timeout=3000)
+    wit += _retry(tlc.emit_cases, ctx, "GenRepro", "GenRepro_wit_order" if q else "GenRepro_wit_order4", timeout=5400, xmx="4g",
                           constants="one order-borne gate open at a time, MaxTypes=%d, same clock/loc/cwd in both runs" % mt)
-    orders = tlc.emit_cases(ctx, "GenRepro", "GenRepro_orders" if q else "GenRepro_orders4", timeout=3000,
+    orders = _retry(tlc.emit_cases, ctx, "GenRepro", "GenRepro_orders" if q else "GenRepro_orders4", timeout=3000, xmx="4g",
                             constants="possible creation orders per shape (c: no namespace files, py: with), MaxTypes=%d" % mt)
     by_gate = collections.Counter(g for w in wit for g in w["gates"])
     missing = [g for g in GATES if not by_gate[g]]
@@ -979,8 +1010,8 @@ def model_stimuli(ctx, camp, wit, orders):
                 p[3].append(g)
     n_amb = sum(len(p[2]) for p in pairs.values())
     # (b) order-borne gates: PYTHONHASHSEED 0..K
-    seeds = list(range(1, ctx.pick(6, 12)))
-    per = ctx.pick(5, 40)
+    seeds = list(range(1, ctx.pick(5, 12)))
+    per = ctx.pick(3, 40)
     order_pairs = collections.OrderedDict()
     for (g, lang), shapes in ord_w.items():
         sks = sorted(shapes, key=lambda s: (-len(json.loads(s)["types"]), s))
@@ -1052,7 +1083,14 @@ def random_campaign(ctx, camp):
     q = ctx.quick
     sets = [camp.new_inputs(fixed_inputs)]
     for k in range(ctx.pick(2, 10)):
-        sets.append(camp.new_inputs(rand_inputs, rng, rng.randint(5, 9) if q else rng.randint(6, 16), rng.randint(3, 5) if q else rng.randint(3, 7)))
+        for _attempt in range(50):
+            cand = rand_inputs(len(camp.inputs) + 1, rng, rng.randint(5, 9) if q else rng.randint(6, 16), rng.randint(3, 5) if q else rng.randint(3, 7))
+            if valid_inputs(ctx, cand):
+                break
+        else:
+            raise MachineryFailure("could not draw a valid random namespace set")
+        camp.inputs[cand.id] = cand
+        sets.append(cand)
     specs = []
     for n, i in enumerate(sets):
         for lang in LANGS:
@@ -1169,7 +1207,7 @@ def run(ctx):
                        "fixed + seeded random namespace sets x 4 targets x CLI/API option sets x ambient variants (clock+TZ, hash seed, fresh "
                        "subprocess / plain `python -m nunavut` / long-lived worker / the check's interpreter, cwd, relative spelling, three "
                        "absolute locations of different length, output elsewhere); distinct = (front end, target, options, input set[, gates]); "
-                       "non-trivial = every pair is run under at least 3 ambient states" % (ctx.pick(5, 40), ctx.pick(5, 11)))
+                       "non-trivial = every pair is run under at least 3 ambient states" % (ctx.pick(3, 40), ctx.pick(4, 11)))
     ctx.cov["exhaustive"] = False
     ctx.assumptions += [
         "TLC and the GenReproP / GenRepro / GenReproTrace specifications",
